@@ -179,6 +179,13 @@ Theorem C08_L2_inorder_sorted :
 Proof. intros [t|] H; [exact (proj1 inorder_sorted_both t [] H)|exact I]. Qed.
 Print Assumptions C08_L2_inorder_sorted.
 
+(* the lower-bound seek returns the first key of the in-order traversal that is >= the bound (with
+   C08_L2_inorder_sorted: the smallest such key) *)
+Theorem C08_L2_seek_lower_bound :
+  forall lo t, seek_ge lo t = find (fun k => lex_leb lo k) (inorder t).
+Proof. intros lo. exact (proj1 (seek_ge_spec_both lo)). Qed.
+Print Assumptions C08_L2_seek_lower_bound.
+
 (* insert (recursiveInsert with expandLeafIfNeeded / expandNode / node growth) builds the ordered map: in-order =
    sorted set of the inserted keys, lookup = membership, lower-bound seek = first key >= bound — PARTIAL: checked
    exhaustively for all 16 105 insertion sequences of length <= 4 over an 11-key adversarial universe; the unbounded
